@@ -95,7 +95,7 @@ def gen_class(lang, name, n_pub, n_priv, extras, blank, comment, start_line, sty
             continue
         if not st or st.startswith(cmt):
             continue
-        if cmt == "//" and lang != "rust" and st.startswith("/*"):
+        if cmt == "//" and st.startswith("/*"):
             in_block = "*/" not in st
             continue
         loc += 1
